@@ -302,6 +302,40 @@ pub fn expected_signature_version(
     previous_versions.iter().copied().max().unwrap_or(0)
 }
 
+/// Datalog version declared by a block payload (field 3 of the Block message)
+pub fn declared_datalog_version(payload: &[u8]) -> Option<u64> {
+    let fields = parse_fields(payload).ok()?;
+    let mut ver = None;
+    for f in fields {
+        if let Field::Varint(3, x) = f {
+            ver = Some(x);
+        }
+    }
+    ver
+}
+
+/// Is the signature of block `i` bound by a later signature? Decided from the specification's
+/// version rule applied to what each signer knew (keys, block kinds, declared Datalog versions),
+/// NOT from the versions written on the wire: a token whose later block was wrongly signed with
+/// the version-0 layout still counts as one whose earlier signature has to be covered.
+pub fn signature_is_covered(view: &TokenView, root_alg: u64, i: usize) -> bool {
+    let n = view.blocks.len();
+    if i + 1 >= n {
+        return matches!(view.proof, ProofView::Seal(_));
+    }
+    let mut prev = vec![];
+    let mut signing = root_alg;
+    for (k, b) in view.blocks.iter().enumerate() {
+        let exp = expected_signature_version(signing, b.next_key_alg, b.external.is_some(), declared_datalog_version(&b.payload), &prev);
+        if k == i + 1 {
+            return exp >= 1;
+        }
+        prev.push(exp);
+        signing = b.next_key_alg;
+    }
+    false
+}
+
 /// RefSigner: builds valid tokens around arbitrary payload bytes
 pub struct RefSigner {
     pub token: WToken,
